@@ -113,10 +113,19 @@ theorem no_other_cell :
        ("RECORD_FIELD_NAME_VALIDATOR_ONCE", "avro/src/validator.rs"), ("SCHEMATA_COMPARATOR_ONCE", "avro/src/schema_equality.rs"),
        ("SERDE_HUMAN_READABLE", "avro/src/util.rs")] := by decide
 
-/-- the cells are only ever touched through the two atomic operations of the model
-(`get_or_init`, `set`) — no `get` + `set` sequences, no `take` -/
+/-- a pure read of a cell (`OnceLock::get`, a non-initialising getter) changes nothing and, at any point of any
+schedule, sees either nothing (no operation yet) or the first operation's value - never a loser's proposal -/
+theorem peek_sees_winner (ops : List (OnceOp α)) :
+    (OnceCell.run ({ v := none } : OnceCell α) ops).1.v = (ops.head?).map OnceOp.arg := by
+  cases ops with
+  | nil => rfl
+  | cons first rest => simpa using (first_wins first rest).1
+
+/-- the cells are only ever touched through the two atomic state-changing operations of the model
+(`get_or_init`, `set`) and the pure read `get` (see `peek_sees_winner`) — no `take`, no `get_mut`, nothing that could
+replace a value once set -/
 theorem atomic_ops_only :
-    Generated.onceCells.all (fun c => c.2.all (fun m => m == "get_or_init" || m == "set")) = true := by decide
+    Generated.onceCells.all (fun c => c.2.all (fun m => m == "get_or_init" || m == "set" || m == "get")) = true := by decide
 
 /-- non-vacuity: three threads race `max_allocation_bytes(4096)`, a first use with the default, and
 `max_allocation_bytes(1)`; the first wins -/
